@@ -248,27 +248,23 @@ impl ParsedFormula {
 
         let formula = SymbolicBDD::parse_formula(&mut tokens.iter().peekable())?;
 
-        let n = vars.len();
+        // `raw2free` is indexed by variable id, and ids need not be contiguous: an ordering may
+        // list names the formula does not use. `vars` is sorted by id, so the last one is the largest.
+        let n = vars.last().map_or(0, |v| v.id + 1);
         let mut result = Self {
             vars,
             free_vars: Vec::new(),
-            raw2free: Vec::with_capacity(n),
+            raw2free: vec![None; n],
             bdd: formula,
             env,
             definitions: Default::default(),
         };
 
-        let mut vi = 0;
         for v in &result.vars {
-            result.raw2free.push(if result.var_is_free(&result.bdd, v) {
+            if result.var_is_free(&result.bdd, v) {
+                result.raw2free[v.id] = Some(result.free_vars.len());
                 result.free_vars.push(v.clone());
-                let v_result = vi;
-                vi += 1;
-
-                Some(v_result)
-            } else {
-                None
-            });
+            }
         }
 
         Ok(result)
